@@ -584,7 +584,10 @@ def resend_rules(radio, agg, lite=False):
             first = evs[0] if evs else None
             agg.add("R02.6", f, "TX FIFO status is read before anything else", first is not None and first.kind == "regread" and first.data[0] == 0x17, "%s: first effect %r" % (label, first))
             ces = [e for e in evs if e.kind == "ce"]
-            empty_path = any(e.kind == "cond" and e.data[0] is True and isinstance(norm(e.data[1]), BitV) and _dep_reg(e.data[1], 0x17, 4) for e in out.trace)
+            # the early exit must be decided by TX_EMPTY (FIFO_STATUS bit 4) alone: a test that also reacts to TX_FULL (bit 5) would refuse to
+            # re-send from a full FIFO
+            empty_path = any(e.kind == "cond" and e.data[0] is True and isinstance(norm(e.data[1]), BitV) and _dep_reg(e.data[1], 0x17, 4) and
+                             not any(_dep_reg(e.data[1], 0x17, b_) for b_ in (0, 1, 2, 3, 5, 6, 7)) for e in out.trace)
             if not ces:
                 ok = value_matches(out.value, False) and len(evs) == 1
                 agg.add("R02.6", f, "empty TX FIFO: returns False and touches nothing", ok, "%s: returns %r after %d effects" % (label, out.value, len(evs)))
